@@ -788,10 +788,6 @@ def run_case(ctx, mods, case):
             a, b = np.asarray(case['a'], dtype=float), np.asarray(case['b'], dtype=float)
         ctx.h('dist_case', f"{case['src']}/{case['seg']}")
         _call(ctx, 'linear_fit.shortest_distance_points', lf.shortest_distance_points, P, a, b)
-        if case['src'] == 'large-int64':
-            # only the closed-segment distance is driven at this magnitude: the perpendicular primitives and
-            # knee_ranking.distances form int64 products that wrap (known finding F-2 of C20)
-            return
         if not np.array_equal(a, b):
             _call(ctx, 'linear_fit.perpendicular_distance_points', lf.perpendicular_distance_points, P, a, b)
         _call(ctx, 'linear_fit.perpendicular_distance_index', lf.perpendicular_distance_index, P,
